@@ -1,6 +1,6 @@
 SPECIFICATION Spec
 CONSTANTS
-  MaxFull = 2
+  MaxFull = 1
   MaxOne = 4
 INVARIANTS
   NoOverrideIsBase
